@@ -60,15 +60,22 @@ func c12(nops int, allowCancel bool) {
 			p.SyncAfterExec = sym.Bool("sync_after_exec")
 			ctx, cancel := kern.WithCancel(kern.Background())
 			w.mayRunForever = false
+			w.cancelFn, w.cancelFired = nil, false
 			if allowCancel && sym.Bool("cancel") {
 				w.mayRunForever = true
-				go func() {
-					sym.Yield()
-					cancel()
-				}()
+				if sym.Bool("cancel_thread") {
+					go func() {
+						sym.Yield()
+						cancel()
+					}()
+				} else {
+					w.cancelFn = cancel
+					w.mayRunForever = false
+				}
 			}
 			w.prog = nil
 			res := c.Execve(ctx, p)
+			w.cancelFn = nil
 			cancel()
 			_ = res.Status == runner.StatusNormal
 			if pr := w.prog; pr != nil && pr.started {
